@@ -425,6 +425,7 @@ func runC09(c *Ctx) {
 	c.Rule("R1 reset: every AnimDecoder field that NextFrame (and what it calls) may modify is stored by Reset with a constant, and Reset clears both canvases, so a replay after Reset starts from the state NewAnimDecoder creates")
 	c.Rule("R2 fresh result: the image returned by NextFrame is allocated in that call and no reference to it (or to its pixel slice) is stored in the decoder or anywhere else; the decoder's own canvases are never returned by NextFrame")
 	c.Rule("R5 canvas refresh: every canvas of the decoder (an *image.NRGBA field) that NextFrame overwrites completely on some path (copy into its Pix, or a callee that writes all of Pix) is overwritten completely on every successful path - a refresh that is skipped on some path leaves the pixels of an older frame in a buffer the next frame starts from")
+	c.Rule("R6 no-blend overwrite: in the function that composites a frame (reads the frame's blend method), a branch on pixel data is taken only on the alpha-blending side of the blend-method test, or always leads to a canvas write before the next pixel: in do-not-blend mode every pixel of the rectangle overwrites the canvas")
 	c.Rule("R3 history refresh: every history field that NextFrame may modify is written on every successful path through NextFrame (a field updated on some paths only keeps a stale value from an older frame)")
 	c.Rule("R4 blend exits: alphaBlendNRGBA leaves early only under conditions on the alpha values being 0 or 255; the specified blend has no other shortcut")
 	c.NotCovered("the blend arithmetic itself, rectangle clamping values, disposal order and that the key-frame shortcut never changes a result (value-level over pixel data)")
@@ -503,6 +504,7 @@ func runC09(c *Ctx) {
 		}
 		// R5: both canvases are completely rewritten on every successful path of NextFrame
 		c09CanvasRefresh(c, p, next)
+		c09NoBlendOverwrite(c, p)
 		// R2
 		c09Fresh(c, p, next)
 		// R4
